@@ -1,13 +1,19 @@
 """C07 — addons cannot duplicate, lose or wedge traffic: at-most-once, fault-isolated.
 
-Engine A: the *fault schedule* is symbolic — a behaviour per addon hook (return values, exceptions, take, drop,
-re-send, send a copy, mutate) for up to three addons plus a session-level subscriber, message direction and
-reliability — driven through the real handle_proxied_packet / AddonManager / ProxiedCircuit.
+Engine A: the *fault schedule* is symbolic — a behaviour per addon hook (return values, exceptions including the
+non-`Exception` ones asyncio.CancelledError / SystemExit, take, drop, re-send, send a copy, mutate) for up to three
+addons plus a session-level subscriber, message direction and reliability — driven through the real
+handle_proxied_packet / AddonManager / ProxiedCircuit.  Handler isolation: faulty subscribers on the session message
+handler (raising wait_for / subscribe_async predicates, raising bodies, taking futures) against observers and the
+proxy's own bookkeeping on the region message handler, and faulty next to well-behaved subscribers on one handler.
 """
+import asyncio
+
 from vlib.harness import harness, shard
 from harness import proxyfix as px
 from harness.proxyfix import small
 from hippolyzer.lib.base.message.message import Message, Block
+from hippolyzer.lib.base.message.msgtypes import PacketFlags
 from hippolyzer.lib.base.network.transport import Direction
 
 _P = "hippolyzer.lib.proxy."
@@ -18,9 +24,12 @@ COVERS = (_P + "lludp_proxy:InterceptingLLUDPProxyProtocol.handle_proxied_packet
           "hippolyzer.lib.base.message.circuit:Circuit.send", "hippolyzer.lib.base.message.message_handler:MessageHandler.handle",
           "hippolyzer.lib.base.events:Event.notify")
 
-NB = 11
+NB = 13
 BEHAVIOURS = ["return None", "return True", "return 'x'", "raise ValueError", "raise KeyError", "take()", "take(); return True",
-              "drop_message()", "circuit.send(original); return True", "circuit.send(take())", "mutate field"]
+              "drop_message()", "circuit.send(original); return True", "circuit.send(take())", "mutate field",
+              "raise asyncio.CancelledError", "raise SystemExit"]
+# what may come out of a hook that is not an Exception (named one by one: CrossHair steers with BaseException subclasses)
+NON_EXCEPTIONS = (asyncio.CancelledError, SystemExit)
 
 
 class Addon:
@@ -56,7 +65,14 @@ class Addon:
         if b == 9:
             region.circuit.send(message.take())
             return None
-        message["ChatData"]["Message"] = "changed"
+        if b == 11:
+            raise asyncio.CancelledError()          # e.g. .result() of a cancelled future
+        if b == 12:
+            raise SystemExit(3)                     # e.g. sys.exit() in a hook
+        if message.name == "RequestMultipleObjects":
+            message["ObjectData"]["CacheMissType"] = 1
+        else:
+            message["ChatData"]["Message"] = "changed"
         return None
 
 
@@ -131,6 +147,8 @@ def run(behaviours, sub, outgoing, reliable):
         px.inject_packet(msg, outgoing)
     except Exception:
         return False                 # nothing an addon does may escape the proxy's packet handler
+    except NON_EXCEPTIONS:
+        return False                 # ... including exceptions that are not `Exception`s
     if [a.calls for a in addons] != expected_calls or sub_calls[0] != 1:
         return False                 # later hooks run unless an earlier one returned truthy; faults are isolated
     # proxy's own tail: queued => dropped; claimed => nothing more; else forwarded iff not finalized
@@ -168,12 +186,14 @@ def run(behaviours, sub, outgoing, reliable):
         px.inject_packet(nxt, outgoing)
     except Exception:
         return False
+    except NON_EXCEPTIONS:
+        return False
     return len([s for (s, _) in f.rec.sent if s.obj is nxt]) == 1
 
 
 @harness(pre=["0 <= b0 < NB", "0 <= b1 < NB", "0 <= sub <= 3"], post="_", timeout=300,
-         note="two addons x 11 hook behaviours each (return None/True/other truthy, raise ValueError/KeyError, take, take+True, "
-              "drop, send original, send a copy, mutate) x {no-op, raising, taking session subscriber, region wildcard "
+         note="two addons x 13 hook behaviours each (return None/True/other truthy, raise ValueError/KeyError, take, take+True, "
+              "drop, send original, send a copy, mutate, raise asyncio.CancelledError, raise SystemExit) x {no-op, raising, taking session subscriber, region wildcard "
               "subscriber} x direction x reliable: nothing escapes the packet handler, later hooks run unless an earlier one "
               "returned truthy, the original goes on the wire exactly as often as the ownership model says (<=1), the message "
               "log sees it once, re-send/re-drop raise RuntimeError and emit nothing, the next packet is forwarded once",
@@ -183,7 +203,7 @@ def two_addons(b0: int, b1: int, sub: int, outgoing: bool, reliable: bool) -> bo
 
 
 @harness(pre=["0 <= b0 < NB", "0 <= b1 < NB", "0 <= b2 < NB"], post="_", timeout=600, tiers=("thorough",),
-         note="three addons x 11 behaviours each, both directions, reliable symbolic (thorough tier)", covers=COVERS)
+         note="three addons x 13 behaviours each, both directions, reliable symbolic (thorough tier)", covers=COVERS)
 def three_addons(b0: int, b1: int, b2: int, outgoing: bool, reliable: bool) -> bool:
     return run([small(b0, 0, NB - 1), small(b1, 0, NB - 1), small(b2, 0, NB - 1)], 0, outgoing, reliable)
 
@@ -206,6 +226,8 @@ def command_channel_claims(b0: int, text: int, reliable: bool) -> bool:
     try:
         px.inject_packet(msg, True)
     except Exception:
+        return False
+    except NON_EXCEPTIONS:
         return False
     if [s for (s, _) in f.rec.sent if s.obj is msg] or not msg.finalized or addons[0].calls != 0:
         return False
@@ -269,10 +291,215 @@ def ownership_state_machine(n: int, o0: int, o1: int, o2: int, o3: int, outgoing
     return sent <= 1 and bool(msg.finalized) == finalized
 
 
+# ------------------------------------------------------------------------------------------------ handler isolation
+SESSION_SUBS = ["wait_for(name, predicate raises KeyError, take=False)", "wait_for(name, predicate raises KeyError) [taking]",
+                "subscribe_async(name, predicate raises KeyError)", "wait_for('*', predicate raises KeyError, take=False)",
+                "subscribe(name, handler raising RuntimeError)", "wait_for(name, predicate False)",
+                "wait_for(name, take=False) matching", "wait_for(name) matching [taking]"]
+REGION_SUBS = ["subscribe(name)", "subscribe('*')", "wait_for(name, take=False)",
+               "subscribe(name) + wait_for(name, predicate raises KeyError, take=False)"]
+MESSAGES = ["ChatFromViewer (out)", "ChatFromSimulator (in, reliable)", "RequestMultipleObjects (out, reliable)"]
+NSS, NRS, NM = len(SESSION_SUBS), len(REGION_SUBS), len(MESSAGES)
+
+
+_OPEN_BLOCKS = []
+
+
+def _typo(message):
+    raise KeyError("LocalID")         # what a mistyped field name in a predicate gives
+
+
+def _never(message):
+    return False
+
+
+def iso_message(m, pid, local_id):
+    if m == 0:
+        return px.chat(pid, reliable=False, outgoing=True)
+    if m == 1:
+        return px.chat(pid, reliable=True, outgoing=False)
+    return Message("RequestMultipleObjects", Block("AgentData", AgentID=px.SESSION.agent_id, SessionID=px.SESSION.id),
+                   Block("ObjectData", CacheMissType=0, ID=local_id), packet_id=pid, flags=int(PacketFlags.RELIABLE),
+                   direction=Direction.OUT)
+
+
+def install_session_sub(handler, ss, name):
+    """the faulty / owning subscriber; returns the future it waits on (or None)"""
+    if ss == 0:
+        return handler.wait_for((name,), predicate=_typo, take=False)
+    if ss == 1:
+        return handler.wait_for((name,), predicate=_typo)
+    if ss == 2:
+        cm = handler.subscribe_async((name,), predicate=_typo)
+        cm.__enter__()
+        _OPEN_BLOCKS[:] = [cm]        # still inside the `with` block (dropping the reference would unsubscribe)
+        return None
+    if ss == 3:
+        return handler.wait_for(("*",), predicate=_typo, take=False)
+    if ss == 4:
+        def explode(message):
+            raise RuntimeError("subscriber exploded")
+        handler.subscribe(name, explode)
+        return None
+    if ss == 5:
+        return handler.wait_for((name,), predicate=_never)
+    if ss == 6:
+        return handler.wait_for((name,), take=False)
+    return handler.wait_for((name,))
+
+
+def run_isolation(ss, rs, b, m, observe_session):
+    addon = Addon(b)
+    f = px.reset([addon])
+    outgoing = m != 1
+    msg = iso_message(m, 10, 1234)
+    name = msg.name
+    # the proxy's own region-level bookkeeping, attached as ProxyObjectManager.__init__ does (px.reset() cleared it)
+    f.region.message_handler.subscribe("RequestMultipleObjects", f.region.objects._handle_request_multiple_objects)
+    f.region.objects.queued_cache_misses = {1234, 1235}
+    # a well-behaved session-level observer that subscribed before the faulty one
+    session_seen = []
+    if observe_session:
+        f.session.message_handler.subscribe(name, session_seen.append)
+    sfut = install_session_sub(f.session.message_handler, ss, name)
+    # region-level subscribers
+    region_seen = []
+    rfut = None
+    if rs == 0 or rs == 3:
+        f.region.message_handler.subscribe(name, region_seen.append)
+    elif rs == 1:
+        f.region.message_handler.subscribe("*", region_seen.append)
+    else:
+        rfut = f.region.message_handler.wait_for((name,), take=False)
+    if rs == 3:
+        f.region.message_handler.wait_for((name,), predicate=_typo, take=False)
+    model = Model()
+    if ss == 7:
+        model.queued = True
+    model.claimed = model.hook(b)
+    try:
+        px.inject_packet(msg, outgoing)
+    except Exception:
+        return False                 # nothing a subscriber or hook does may escape the proxy's packet handler
+    except NON_EXCEPTIONS:
+        return False
+    # every other party saw the message exactly once: session observer, region subscriber, bookkeeping, addon hook
+    if observe_session and (len(session_seen) != 1 or session_seen[0] is not msg):
+        return False
+    if rfut is None:
+        if len(region_seen) != 1 or region_seen[0] is not msg:
+            return False
+    elif not rfut.done() or rfut.result() is not msg:
+        return False
+    if f.region.objects.queued_cache_misses != ({1235} if m == 2 else {1234, 1235}):
+        return False
+    if addon.calls != 1:
+        return False
+    # the faulty / owning subscriber's future
+    if ss in (0, 1, 3, 5) and sfut.done():
+        return False
+    if ss == 6 and not (sfut.done() and sfut.result() is msg):
+        return False
+    if ss == 7 and not (sfut.done() and sfut.result() is not msg and sfut.result().name == name):
+        return False
+    # wire, log and ownership exactly as the ownership model says
+    if model.queued and not model.finalized:
+        model.finalized = True
+    elif not model.claimed and not model.finalized:
+        model.finalized = True
+        model.sent += 1
+    originals = [s for (s, _) in f.rec.sent if s.obj is msg]
+    copies = [s for (s, _) in f.rec.sent if s.obj is not msg and s.name == name]
+    if len(originals) != model.sent or model.sent > 1 or len(copies) != model.copies:
+        return False
+    if len(f.log.logged) != 1 or f.log.logged[0] is not msg:
+        return False
+    if bool(msg.finalized) != model.finalized:
+        return False
+    # no wedging: the faulty subscribers are still there; the next message of that type gets the same treatment
+    addon.b = 0
+    nxt = iso_message(m, 11, 777)
+    try:
+        px.inject_packet(nxt, outgoing)
+    except Exception:
+        return False
+    except NON_EXCEPTIONS:
+        return False
+    if observe_session and (len(session_seen) != 2 or session_seen[1] is not nxt):
+        return False
+    if rfut is None and (len(region_seen) != 2 or region_seen[1] is not nxt):
+        return False
+    if addon.calls != 2 or len(f.log.logged) != 2 or f.log.logged[1] is not nxt:
+        return False
+    if f.region.objects.queued_cache_misses != ({1235} if m == 2 else {1234, 1235}):
+        return False
+    return len([s for (s, _) in f.rec.sent if s.obj is nxt]) == 1
+
+
+@harness(pre=["0 <= ss < NSS", "0 <= rs < NRS", "0 <= b0 < NB", "0 <= m < NM"], post="_", timeout=300,
+         note="handler isolation between the session and the region message handler: 8 session-level subscribers (wait_for / "
+              "subscribe_async / wildcard wait_for whose predicate raises KeyError, handler body raising, predicate False, "
+              "matching observer future, matching taking future) x 4 region-level subscriber set-ups (named, wildcard, "
+              "wait_for future, named + a wait_for whose predicate raises) x 13 addon hook behaviours x 3 messages (chat out, "
+              "reliable chat in, reliable RequestMultipleObjects with the real ProxyObjectManager cache-miss bookkeeping "
+              "re-attached to the region handler) x {with, without an earlier well-behaved session observer}: nothing "
+              "escapes the packet handler; the session observer, the region subscriber / future, the region bookkeeping "
+              "(queued_cache_misses pruned) and the addon hook each see the message exactly once; the waiting futures "
+              "resolve exactly when their predicate matched (a taking one gets a copy); the original goes on the wire as "
+              "often as the ownership model says and is logged once; the next message of the same type is handled the same "
+              "way and forwarded once", covers=COVERS + (
+                 "hippolyzer.lib.base.message.message_handler:MessageHandler.wait_for",
+                 "hippolyzer.lib.base.message.message_handler:MessageHandler.subscribe_async",
+                 _P + "object_manager:ProxyObjectManager._handle_request_multiple_objects"))
+def handler_isolation(ss: int, rs: int, b0: int, m: int, observe_session: bool) -> bool:
+    return run_isolation(small(ss, 0, NSS - 1), small(rs, 0, NRS - 1), small(b0, 0, NB - 1), small(m, 0, NM - 1), observe_session)
+
+
+shard(handler_isolation, "ss", range(NSS), [f"session_sub_{i}" for i in range(NSS)], globals())
+
+
+FAULTY = ["wait_for(name, predicate raises KeyError, take=False)", "subscribe_async(name, predicate raises KeyError)",
+          "subscribe(name, handler raising RuntimeError)"]
+
+
+@harness(pre=["0 <= faulty <= 2"], post="_", timeout=120,
+         note="isolation between subscribers of ONE message handler (Event.notify: 'One handler failing shouldn't prevent "
+              "notification of other handlers'): a faulty subscriber (wait_for / subscribe_async whose predicate raises "
+              "KeyError, or a raising handler body) and a well-behaved observer on the same handler, x {session, region "
+              "handler} x {observer subscribed by name, by wildcard} x {observer subscribed before, after the faulty one} x "
+              "direction: the observer sees the message exactly once, the message is forwarded and logged exactly once, "
+              "nothing escapes", covers=COVERS)
+def same_handler_isolation(faulty: int, on_region: bool, wildcard: bool, observer_first: bool, outgoing: bool) -> bool:
+    f = px.reset(())
+    handler = f.region.message_handler if on_region else f.session.message_handler
+    msg = px.chat(10, outgoing=outgoing)
+    seen = []
+    if observer_first:
+        handler.subscribe("*" if wildcard else msg.name, seen.append)
+    install_session_sub(handler, (0, 2, 4)[small(faulty, 0, 2)], msg.name)
+    if not observer_first:
+        handler.subscribe("*" if wildcard else msg.name, seen.append)
+    try:
+        px.inject_packet(msg, outgoing)
+    except Exception:
+        return False
+    if len(seen) != 1 or seen[0] is not msg:
+        return False
+    return len([s for (s, _) in f.rec.sent if s.obj is msg]) == 1 and len(f.log.logged) == 1 and f.log.logged[0] is msg
+
+
 EVIDENCE = {
-    "bounds": "2 addons (quick) / 3 addons (thorough) x 11 behaviours per hook, 4 subscriber variants, direction and reliable "
-              "bit symbolic; operation sequences of length <=4 over 4 ownership operations",
+    "bounds": "2 addons (quick) / 3 addons (thorough) x 13 behaviours per hook (incl. raising asyncio.CancelledError and "
+              "SystemExit), 4 subscriber variants, direction and reliable bit symbolic; handler isolation: 8 session-level "
+              "subscribers x 4 region-level set-ups x 13 hook behaviours of one addon x 3 messages x {with, without} an earlier "
+              "session observer, two consecutive messages; 3 faulty subscribers x {session, region handler} x {named, "
+              "wildcard observer} x subscription order x direction on one handler; operation sequences of length <=4 over 4 "
+              "ownership operations",
     "outside": "hook points other than handle_lludp_message (handle_proxied_packet pre-parse hook, RLV command hooks); async "
-               "hooks; byte codec (snapshot serializer)",
-    "assumptions": ["addon hot-reload stubbed; the deserializer is stubbed to hand over the prepared Message"],
+               "hooks; non-Exception exceptions other than asyncio.CancelledError / SystemExit (KeyboardInterrupt, "
+               "GeneratorExit: the engine itself steers with BaseException subclasses); one-shot unsubscribe failures inside "
+               "Event.notify; byte codec (snapshot serializer)",
+    "assumptions": ["addon hot-reload stubbed; the deserializer is stubbed to hand over the prepared Message",
+                    "the shared fixture clears the region handler's subscriptions per path; the handler-isolation obligation "
+                    "re-attaches ProxyObjectManager._handle_request_multiple_objects as ProxyObjectManager.__init__ does"],
 }
